@@ -62,27 +62,30 @@ impl KVVStore for MemoryKVVStore {
 
     fn put_batch(&self, kvvs: Vec<KVV>) -> Result<(), Error> {
         let mut data = self.data.lock().unwrap();
-        for kvv in kvvs.iter() {
-            let key = &kvv.0;
-            let (version, value) = &kvv.1;
-            let existing = data.get(key);
+        // each entry is checked against the entries before it in the same batch as well,
+        // nothing is written unless all are accepted
+        let mut staged: BTreeMap<String, (u64, Vec<u8>)> = BTreeMap::new();
+        for kvv in kvvs.into_iter() {
+            let (key, (version, value)) = kvv.into_inner();
+            let existing = staged.get(&key).or_else(|| data.get(&key));
             if let Some((ver, val)) = existing {
-                if version < ver {
+                if version < *ver {
                     error!("version mismatch for {}: {} < {}", key, version, ver);
                     // version cannot go backwards
                     return Err(Error::VersionMismatch);
-                } else if version == ver {
+                } else if version == *ver {
                     // if same version, value must not have changed
-                    if val != value {
+                    if *val != value {
                         error!("value mismatch for {}: {}", key, version);
                         return Err(Error::VersionMismatch);
                     }
+                    continue;
                 }
             }
+            staged.insert(key, (version, value));
         }
-        for kvv in kvvs.into_iter() {
-            let key = kvv.0;
-            data.insert(key.to_string(), kvv.1);
+        for (key, vv) in staged.into_iter() {
+            data.insert(key, vv);
         }
         Ok(())
     }
